@@ -12,7 +12,7 @@ Step == l' = l + 1
 Obs(cond) == cond /\ Step /\ UNCHANGED vars
 
 Reset ==
-  /\ started' = FALSE /\ crashed' = FALSE
+  /\ started' = FALSE /\ crashed' = FALSE /\ epc' = "idle" /\ coal' = FALSE
   /\ chan' = <<>> /\ wakePending' = FALSE /\ shouldSend' = FALSE /\ clientCount' = 0 /\ nextEmit' = 1
   /\ backlog' = {} /\ registered' = {}
   /\ q' = [c \in Clients |-> <<>>] /\ wbuf' = [c \in Clients |-> None]
@@ -28,7 +28,7 @@ LearnLen(len) ==
   /\ LET b == NextBuf(dtok) IN
      IF tot[b[1]] = 0 THEN b[2] = 0 /\ tot' = [tot EXCEPT ![b[1]] = len]
      ELSE tot[b[1]] - b[2] = len /\ UNCHANGED tot
-  /\ UNCHANGED <<started, crashed, chan, wakePending, shouldSend, clientCount, nextEmit, backlog, registered, q, wbuf, stream, sockFree,
+  /\ UNCHANGED <<epc, coal, started, crashed, chan, wakePending, shouldSend, clientCount, nextEmit, backlog, registered, q, wbuf, stream, sockFree,
                  peerOpen, pc, buffered, fanLeft, toRemove, dtok, dphase, lastDrain, enq, drp, torn, lost>>
 
 \* what a client received, decoded by the harness: <<id, complete>> (id 0: a cut frame at the very end)
